@@ -115,7 +115,8 @@ def gen(tier, seed):
                 ang = 10 ** rng.uniform(-9, -3)
                 K = np.array([[0, -ax[2], ax[1]], [ax[2], 0, -ax[0]], [-ax[1], ax[0], 0]])
                 Rt = np.eye(3) + math.sin(ang) * K + (1 - math.cos(ang)) * (K @ K)
-                R = Rt @ (np.array(rng.choice(S.CUBE)[0], dtype=float))
+                # 40 % of them tilt the identity itself (a fast path for "axis-aligned" poses tests the diagonal of R: seed C04-8)
+                R = Rt @ (np.eye(3) if rng.random() < 0.4 else np.array(rng.choice(S.CUBE)[0], dtype=float))
             fs = S.feature_size(s)
             unit = 10 ** rng.uniform(math.log10(2e-2), math.log10(100.0 / fs))
             tw = np.array([rng.uniform(-1, 1) for _ in range(3)]) * rng.choice((0.0, 1.0, 100.0, 500.0))
@@ -128,7 +129,7 @@ def gen(tier, seed):
     return recs
 
 
-def rigid_body_records(tier, seed, n0):
+def rigid_body_records(tier, seed, n0, res):
     """RigidBody.aabb() must bound the body's vertices in the world frame: fresh factory bodies at general poses and
     bodies with a history of contact queries (sessions of the hydroelastic session model, harness/props/c16.py)"""
     from . import c16
@@ -154,7 +155,8 @@ def rigid_body_records(tier, seed, n0):
         except Exception as ex:
             recs.append(rec_of(kind, [0] * 3, [0] * 3, 1.0, "fresh", type(ex).__name__))
     ops = []
-    for i in range(10 if tier == "quick" else 150):
+    wit = [c16.witnesses(res, "boxcache"), c16.witnesses(res, "boxcache2")]
+    for i in range(12 if tier == "quick" else 150):
         h = []
         for _ in range(4):
             b1, b2 = rng.sample(c16.NAMES, 2)
@@ -163,12 +165,12 @@ def rigid_body_records(tier, seed, n0):
                                  {"op": "aabb", "b1": b1, "b2": b1, "bp": "-", "det": False, "how": "-"})))
             if rng.random() < 0.35:      # the user moves a body (possibly back to the pose it had at the start)
                 h.append({"op": "move", "b1": b1, "b2": b1, "bp": "-", "det": False, "how": rng.choice(("inplace", "assign")), "back": rng.random() < 0.5})
-        if i % 3 == 0:
-            # the history TLC finds against a box kept per pose value (HydroSession, BoxCache = "by_pose_value")
-            b1, b2 = rng.sample(c16.NAMES, 2)
-            h = [{"op": "aabb", "b1": b1, "b2": b1, "bp": "-", "det": False, "how": "-"},
-                 {"op": "cf", "b1": b1, "b2": b2, "bp": rng.choice(("brute", "tree")), "det": False, "how": "-"},
-                 {"op": "move", "b1": b1, "b2": b1, "bp": "-", "det": False, "how": rng.choice(("inplace", "assign")), "back": True}]
+        if i % 3 != 2 and wit[i % 3]:
+            # a history TLC finds against a kept world box: per pose value (HydroSession, BoxCache = "by_pose_value": aabb, query as
+            # body 1, moved back, aabb) or until update_pose / express_in (BoxCache = "until_update": aabb, move, aabb - seed C04-7)
+            ws = wit[i % 3]
+            short = [w for w in ws if len(w) == len(ws[0])]
+            h = [dict(x) for x in (rng.choice(short) if rng.random() < 0.5 else rng.choice(ws))]
         h += [{"op": "aabb", "b1": nm, "b2": nm, "bp": "-", "det": False, "how": "-"} for nm in c16.NAMES]
         ops.append((f"h{i}", seed * 104729 + i, h, None, True))
     from concurrent.futures import ProcessPoolExecutor
@@ -183,7 +185,7 @@ def run(tier, seed):
     env.setup()
     res = Result("C04", tier, seed)
     recs = gen(tier, seed)
-    recs += rigid_body_records(tier, seed, len(recs))
+    recs += rigid_body_records(tier, seed, len(recs), res)
     byid = {r["id"]: r for r in recs}
     rejects = trace.judge(recs, "shapes", "ShapeTrace", "ShapeTrace.cfg", "c04", res)
     for rid, clauses in sorted(rejects.items(), key=lambda kv: int(kv[0][1:])):
